@@ -459,7 +459,7 @@ func cmdRecord(args []string) {
 		vh.Die("universe drift: %s", err)
 	}
 	g := &gen{r: rand.New(rand.NewSource(vh.Seed())), t: t, u: &u,
-		special: []string{"QUOTE", "BSL", "LF", "TAB", "CR", "BS", "FF", "NUL", "C01", "C1F", "SP", "DEL", "U80", "EACU", "EMOJI", "UFFFD",
+		special: []string{"QUOTE", "BSL", "LF", "TAB", "CR", "BS", "FF", "NUL", "C01", "C1F", "SP", "DEL", "U80", "EACU", "EMOJI", "UFFFD", "U85", "UAD", "U200B", "U2028", "U2029", "U202E", "UFEFF", "U1D173", "UE0067",
 			"BADFF", "BADC3", "/", "#", "$", ",", ":", "u", "n", "0", "a", "[", "]", "{", "}"}}
 	f, err := os.Create(*out)
 	if err != nil {
